@@ -78,7 +78,7 @@ pub fn parse_alphanumeric(input: &str, field_name: &str) -> Result<String, Parse
 
 /// Parse uppercase letters only
 pub fn parse_uppercase(input: &str, field_name: &str) -> Result<String, ParseError> {
-    if !input.chars().all(|c| c.is_ascii_uppercase() || c == ' ') {
+    if !input.chars().all(|c| c.is_ascii_uppercase()) {
         return Err(ParseError::InvalidFormat {
             message: format!("{} must contain only uppercase letters", field_name),
         });
